@@ -16,6 +16,10 @@ CHECKS = {
    text="SebufMock.tla states what the contract fixes about a mock reply (MockReplyConforms = Validates and Described against the RPC's published 200 schema, ExamplesUsed over the reply's leaves). MC_Pipeline family C20 (18 field kinds x 6 cardinalities incl. oneof members x example sets none / parsable / mixed / unparsable / awkward strings / out-of-range x nestings flat, nested, map value, recursive, two services, proto-nested with a same-named decoy, imported file: 304 schemas) is enumerated by TLC; every schema is generated with generate_mock=true, built, linked with the real emitted server, every mock RPC invoked 6 (quick) / 20 (thorough) times over HTTP, and TLC judges every MockBuild and Mock event on the real OpenAPI document of the same schema.",
    design="§7 C20", technique="TLA+ model checking (TLC) of the schema family + TLC trace validation (inventory mode) of real mock builds and real mock replies against the real emitted response schema",
    note="Trusted: TLC; go build as instrument; string -> typed example parsing is done by the harness with strconv (the specification compares canonical tokens); randomness of example selection is sampled by repetition."),
+ "C08": dict(
+   text="The call protocol of SebufCall.tla (Start / Sent / Saw / Ret, extended by the header obligation: a value handed to a client through a header option is on the wire under exactly the header name the servers validate) is run over the three language pairs. MC_Interop model-checks the contract system (Completes, WrongNameBlocked) and enumerates pair x verb x route (path variable + optional/required query parameters, path only, two path variables, default route) x URL-field kind x value class x way of supplying a required service- or method-level header (constructor default, typed constructor option, per-call headers, typed per-call option, per-call override of a default) x header-name shape: 1056 cases. Each is executed through the REAL emitted modules: TS client -> Go server, Go client -> TS server (request and response relayed between node 22 and the Go driver), TS client -> TS server (in one node process over the emitted route table of all services of the module), and TLC validates the Load / Sent / Saw / Ret events of every call.",
+   design="§7 C08", technique="TLA+ model checking (TLC) + replay of TLC-enumerated calls through the real emitted TS/Go clients and servers + TLC trace validation",
+   note="Trusted: TLC; node 22 (type stripping) as the standards-compliant runtime; the relay between the two drivers copies verb, URL, headers and body bytes verbatim; the emitted TS server leaves routing to its user, so the harness matches templates segment-wise on the raw path; representation of a value inside the TS handler argument (string vs number/boolean for path variables) is C07's question, here it is compared as a value of the field's type."),
  "C02": dict(
    text="SebufWire.tla is model-checked exhaustively (MC_Wire_C02: verb x body shape x content type x URL value classes, 4320 abstract requests) for C02_UrlWins / C02_BadUrl400; every TLC-enumerated request is concretised per field kind and replayed through the real emitted BindingMiddleware, and the recorded events (BodyRead, HandlerSaw, Resp) are validated by TLC against Trace_Wire.tla, which re-derives the admissible handler view from the logged abstract request.",
    design="§7 C02", technique="TLA+ model checking (TLC) + replay of TLC-enumerated requests + TLC trace validation of real server events"),
